@@ -20,10 +20,13 @@ ASSUME_PAT = re.compile(r'\b(assume_specification|admit\s*\(|assume\s*\(|externa
 def expand_includes(text, seen=None):
     out = []
     for ln in text.split('\n'):
-        m = re.match(r'^\s*//@@include\s+(\S+)', ln)
+        m = re.match(r'^\s*//@@include(_notags)?\s+(\S+)', ln)
         if m:
-            with open(os.path.join(UNITS_DIR, m.group(1))) as f:
-                out.append(expand_includes(f.read()))
+            with open(os.path.join(UNITS_DIR, m.group(2))) as f:
+                inc = expand_includes(f.read())
+            if m.group(1):
+                inc = re.sub(r'\s*//#\s*[\w.\-]+', '', inc)
+            out.append(inc)
         else:
             out.append(ln)
     return '\n'.join(out)
